@@ -246,3 +246,45 @@ for cls, opts in _NOT_PRINTED.items():
                     "\"quantized_bits(8,0,1,alpha='auto')\"; the re-parsed "
                     "object has scale_axis None (same omission for the "
                     "other listed options, by reading the printer)"}
+
+# ------------------------------------------------------------------ C16/C17
+_MI = "qkeras/qtools/quantized_operators/multiplier_impl.py::"
+TRIAGE[("C16", "R2", _MI + "Mux", "widths-not-commutative")] = {
+    "what_fails": "Mux takes the output width from the input operand "
+                  "whenever the weight is binary/ternary, even when the "
+                  "input is the narrower binary: ternary(weight) x "
+                  "binary(input) reports a ternary output with bits=1, the "
+                  "swapped call bits=2",
+    "replayed": "MultiplierFactory().make_multiplier(Ternary(), Binary())."
+                "output -> ('ternary', bits 1, int_bits 1); "
+                "make_multiplier(Binary(), Ternary()) -> bits 2"}
+_AF = "qkeras/qtools/quantized_operators/adder_factory.py::"
+_AI = "qkeras/qtools/quantized_operators/adder_impl.py::"
+_FIX = {"status": "fixed", "commit": "d0b7627",
+        "what_fails": "adder_impl_table[1][4] (po2 + binary 0/1) selected "
+                      "FixedPointAdder, which reads the po2 operand's "
+                      "bits/int_bits as a fixed-point format",
+        "replayed": "before the fix IAdder().make_quantizer(PowerOfTwo(8 "
+                    "bits), Binary(use_01=True)).output -> (bits 10, int 9); "
+                    "swapped -> (129, 64); after the fix both (129, 64)"}
+TRIAGE[("C17", "R1", _AF + "IAdder.adder_impl_table",
+        "table-asymmetric[1][4]")] = dict(_FIX)
+TRIAGE[("C17", "R5", _AI + "FixedPointAdder",
+        "adder-insufficient-int-bits")] = dict(_FIX)
+TRIAGE[("C17", "R5", _AI + "FixedPointAdder",
+        "adder-insufficient-frac-bits")] = dict(_FIX)
+TRIAGE[("C17", "R1", _AI + "FixedPointAdder",
+        "adder-type-not-commutative")] = dict(_FIX)
+TRIAGE[("C17", "R1", _AI + "Po2FixedPointAdder",
+        "adder-type-not-commutative")] = dict(_FIX)
+_MG = "qkeras/qtools/quantized_operators/merge_factory.py::"
+for c in ("Add", "Maximum"):
+  TRIAGE[("C17", "R5", _MG + c, "merge-insufficient-frac-bits")] = {
+      "what_fails": "%s keeps max(bits) and max(int_bits) of its inputs "
+                    "independently, so the output's fractional bits are "
+                    "max_bits - max_int_bits - sign: coarser than the finest "
+                    "operand when the widest-integer input is not the "
+                    "finest one" % c,
+      "replayed": "Add([(QuantizedBits bits=8,int=0), (QuantizedBits "
+                  "bits=8,int=7)]).output -> bits 9, int_bits 8, i.e. 0 "
+                  "fractional bits although the first operand has 7"}
